@@ -355,7 +355,7 @@ theorem prV3Connack_goodV {c : C} {parsed : Except Nat Pkt} (h : GoodV c.s) (hb 
     · simp only [push_s]
       split
       · split
-        · exact sendStored_goodV (c := { c with s := { c.s with status := .connected } }) h hb
+        · exact resendStored_goodV (c := { c with s := { c.s with status := .connected } }) h hb
         · exact clearStoreRelated_goodV (c := { c with s := { c.s with status := .connected } }) h
       · exact h
     · exact h
@@ -436,7 +436,7 @@ theorem prV5Connack_goodV {c : C} {parsed : Except Nat Pkt} (h : GoodV c.s) (hb 
             (fun c id v _ hc => connackRecvProp_headroom hc)
             (c := { c with s := { c.s with status := .connected } }) hb _ (fun _ _ => trivial)
         split
-        · exact sendStored_goodV h1 h2
+        · exact resendStored_goodV h1 h2
         · exact clearStoreRelated_goodV h1
       · exact h
     · exact h
